@@ -402,6 +402,36 @@ impl DogStatsDBuilder {
     }
 }
 
+#[cfg(metrics_verif)]
+impl DogStatsDBuilder {
+    /// Verification hook: the forwarder configuration `build()` would use, without spawning the forwarder.
+    ///
+    /// Runs the same `validate_max_payload_len` check `build()` starts with, then derives the values `build()` puts in
+    /// `ForwarderConfiguration` and the forwarder reads from it: `(transport_id, remote address as displayed, maximum
+    /// payload length, is_length_prefixed)`.
+    ///
+    /// # Errors
+    ///
+    /// The error `build()` would return for an invalid maximum payload length.
+    pub fn verif_forwarder_config(&self) -> Result<(&'static str, String, usize, bool), BuildError> {
+        self.validate_max_payload_len()?;
+
+        let config = ForwarderConfiguration {
+            remote_addr: self.remote_addr.clone(),
+            max_payload_len: self.get_max_payload_len(),
+            flush_interval: self.get_flush_interval(),
+            write_timeout: self.write_timeout,
+        };
+
+        Ok((
+            config.remote_addr.transport_id(),
+            config.remote_addr.to_string(),
+            config.max_payload_len,
+            config.is_length_prefixed(),
+        ))
+    }
+}
+
 impl Default for DogStatsDBuilder {
     fn default() -> Self {
         DogStatsDBuilder {
